@@ -49,7 +49,11 @@ def run_shards(prop, tier, seed, nshards, jobs, timeout, tmpdir, debug_shards=Fa
                 # environment route: this shard runs the library in its debug mode (CHAMELEON_DEBUG: type-checking output
                 # stream, modules written to a scratch directory and never reused, source and body kept) - every property
                 # holds there as well
-                shard_env = dict(environ, CHAMELEON_DEBUG='true', VERIF_DEBUG_SHARD='1')
+                # (debug mode makes a scratch directory per process and leaves it behind: it is put under this run's
+                # own scratch directory, which is removed at the end)
+                dbg_tmp = os.path.join(tmpdir, 'debug_shard_tmp_%d' % i)
+                os.makedirs(dbg_tmp, exist_ok=True)
+                shard_env = dict(environ, CHAMELEON_DEBUG='true', VERIF_DEBUG_SHARD='1', TMPDIR=dbg_tmp)
             p = subprocess.Popen(
                 [env.PY, '-m', 'vlib.shard', prop, tier, str(seed), str(i),
                  str(nshards), out],
